@@ -125,15 +125,15 @@ func NewBuilder(targetDir string, fetcher PackageFetcher, registryClient Registr
 // If the returned diagnostics contains errors then the bundle is left in an
 // inconsistent state and must not be used for any other calls.
 func (b *Builder) AddRemoteSource(ctx context.Context, addr sourceaddrs.RemoteSource, depFinder DependencyFinder) Diagnostics {
+	af := remoteArtifact{addr, depFinder}
+	b.mu.Lock()
 	if b.targetDir == "" {
 		// The builder has been closed, so cannot be modified further.
 		// This is always a bug in the caller, which should discard a builder
 		// as soon as it's been closed.
+		b.mu.Unlock()
 		panic("AddRemoteSource on closed sourcebundle.Builder")
 	}
-
-	af := remoteArtifact{addr, depFinder}
-	b.mu.Lock()
 	if _, exists := b.analyzed[af]; exists {
 		// Nothing further to do with this one, then.
 		// NOTE: This early check is just an optimization; b.resolvePending
@@ -161,14 +161,14 @@ func (b *Builder) AddRemoteSource(ctx context.Context, addr sourceaddrs.RemoteSo
 // If the returned diagnostics contains errors then the bundle is left in an
 // inconsistent state and must not be used for any other calls.
 func (b *Builder) AddRegistrySource(ctx context.Context, addr sourceaddrs.RegistrySource, allowedVersions versions.Set, depFinder DependencyFinder) Diagnostics {
+	b.mu.Lock()
 	if b.targetDir == "" {
 		// The builder has been closed, so cannot be modified further.
 		// This is always a bug in the caller, which should discard a builder
 		// as soon as it's been closed.
+		b.mu.Unlock()
 		panic("AddRegistrySource on closed sourcebundle.Builder")
 	}
-
-	b.mu.Lock()
 	b.pendingRegistry = append(b.pendingRegistry, registryArtifact{addr, allowedVersions, depFinder})
 	b.mu.Unlock()
 
